@@ -432,8 +432,14 @@ int main(int argc, char** argv) {
     Sub s; s.name = "c14.models"; s.property = "C14"; s.instances = 9; s.n_quick = 5000; s.n_thorough = 100000; s.run = c14_model;
     s.gen = [](int inst) { const int cls = inst % 3, nt = inst / 3; const LD inf = std::numeric_limits<LD>::infinity();
       auto val = rc::gen::oneOf(rc::gen::element<LD>(-inf, -1, -(LD)0, (LD)0, 1, 2, inf, std::ldexp((LD)1, ntinfo(nt).emin)), gen_real(nt, -4, 4, kNeg | kZero));
-      return rc::gen::map(rc::gen::tuple(rc::gen::container<std::vector<LD>>(4, val), irange(0, 2)), [=](const std::tuple<std::vector<LD>, int>& t) { Case c; c.i = {nt, cls}; c.r = std::get<0>(t); if (std::get<1>(t) >= 1) c.r[2] = c.r[0]; if (std::get<1>(t) == 2) c.r[3] = c.r[1]; return c; }); };
-    s.rule = "the three constitutive model classes x 3 numeric types: six comparison operators = lexicographic comparison of the stored moduli in declared order, equal => equal hash, std::set / std::unordered_set; non-trivial: tie in the first modulus";
+      return rc::gen::map(rc::gen::tuple(rc::gen::container<std::vector<LD>>(4, val), irange(0, 4)), [=](const std::tuple<std::vector<LD>, int>& t) { Case c; c.i = {nt, cls}; c.r = std::get<0>(t);
+        const int mode = std::get<1>(t);
+        auto next = [nt](LD x) { return (x == 0 || !std::isfinite(x)) ? x : round_to(nt, x + ulp_at(nt, x)); };   // the neighbouring value of the numeric type
+        if (mode == 1 || mode == 2) c.r[2] = c.r[0]; if (mode == 2) c.r[3] = c.r[1];
+        if (mode == 3) c.r[2] = next(c.r[0]);                          // first moduli one ulp apart (they differ, however they are compared in a narrower type)
+        if (mode == 4) { c.r[2] = c.r[0]; c.r[3] = next(c.r[1]); }     // tie in the first modulus, second moduli one ulp apart
+        return c; }); };
+    s.rule = "the three constitutive model classes x 3 numeric types: six comparison operators = lexicographic comparison of the stored moduli in declared order, equal => equal hash, std::set / std::unordered_set; moduli from a pool (infinities, signed zeros, smallest normal), random, tied, or one ulp of the numeric type apart; non-trivial: tie in the first modulus";
     subs.push_back(s);
   }
   {
